@@ -64,7 +64,8 @@ def const_node(v):
 
 
 class SymBody:
-    def __init__(self, ctx, f, max_paths=400, inline_depth=3):
+    def __init__(self, ctx, f, max_paths=400, inline_depth=3, no_inline=()):
+        self.no_inline = set(no_inline)
         self.ctx = ctx
         self.model = ctx.model
         self.f = f
@@ -221,7 +222,7 @@ class SymBody:
         """call of a small pure package helper -> its return expression with
         the arguments substituted (None when the callee is not of that form)"""
         t = self.callee(call, f)
-        if t is None or t is self.f:
+        if t is None or t is self.f or t.name in self.no_inline:
             return None
         if any(isinstance(x, (ast.Yield, ast.YieldFrom))
                for x in ast.walk(t.node)):
@@ -231,7 +232,8 @@ class SymBody:
             return None
         try:
             sub = SymBody(self.ctx, t, max_paths=16,
-                          inline_depth=self.inline_depth - depth - 1)
+                          inline_depth=self.inline_depth - depth - 1,
+                          no_inline=self.no_inline)
             paths = sub.run(t.node.body, env)
         except AnalysisError:
             return None
@@ -369,19 +371,10 @@ class SymBody:
     def _fork_value(self, p, v, depth):
         if not isinstance(v, ast.IfExp) or depth > 6:
             return [(p, v)]
-        r = self.truth(v.test)
-        if r is not None:
-            return self._fork_value(p, v.body if r else v.orelse, depth + 1)
         out = []
-        for val, sub in ((True, v.body), (False, v.orelse)):
-            q = p.clone()
-            # split a conjunction so each conjunct is its own condition
-            conj = v.test.values if (isinstance(v.test, ast.BoolOp) and
-                                     isinstance(v.test.op, ast.And) and
-                                     val) else [v.test]
-            for c in conj:
-                q.conds.append((c, val))
-            out.extend(self._fork_value(q, sub, depth + 1))
+        for (q, val) in self.branch(v.test, p):
+            out.extend(self._fork_value(q, v.body if val else v.orelse,
+                                        depth + 1))
         return out
 
     def _slice(self, sl, env):
@@ -419,6 +412,50 @@ class SymBody:
                 r = t.left.value is None
                 return r if isinstance(t.ops[0], ast.Is) else not r
         return None
+
+    def branch(self, t, p, depth=0):
+        """decide a (substituted) test on path p: -> [(path, bool)], forking
+        on the ATOMIC conditions in short-circuit order, so every recorded
+        condition is a single comparison / call / name"""
+        r = self.truth(t)
+        if r is not None:
+            return [(p, r)]
+        if depth > 8:
+            q1, q2 = p, p.clone()
+            q1.conds.append((t, True))
+            q2.conds.append((t, False))
+            return [(q1, True), (q2, False)]
+        if isinstance(t, ast.UnaryOp) and isinstance(t.op, ast.Not):
+            return [(q, not v) for (q, v) in
+                    self.branch(t.operand, p, depth + 1)]
+        if isinstance(t, ast.BoolOp):
+            is_or = isinstance(t.op, ast.Or)
+            pending = [p]
+            out = []
+            for k, v in enumerate(t.values):
+                nxt = []
+                for q in pending:
+                    for (q2, val) in self.branch(v, q, depth + 1):
+                        if val == is_or:
+                            out.append((q2, is_or))      # short-circuit
+                        elif k == len(t.values) - 1:
+                            out.append((q2, not is_or))
+                        else:
+                            nxt.append(q2)
+                pending = nxt
+                if not pending:
+                    break
+            return out
+        if isinstance(t, ast.IfExp):
+            out = []
+            for (q, val) in self.branch(t.test, p, depth + 1):
+                out.extend(self.branch(t.body if val else t.orelse, q,
+                                       depth + 1))
+            return out
+        q1, q2 = p, p.clone()
+        q1.conds.append((t, True))
+        q2.conds.append((t, False))
+        return [(q1, True), (q2, False)]
 
     def stmt(self, st, p):
         env = p.env
@@ -461,14 +498,9 @@ class SymBody:
             return [p]
         if isinstance(st, ast.If):
             t = self.S(st.test, env)
-            r = self.truth(t)
-            if r is not None:
-                return self.block(st.body if r else st.orelse, [p])
             out = []
-            for val, body in ((True, st.body), (False, st.orelse)):
-                q = p.clone()
-                q.conds.append((t, val))
-                out.extend(self.block(body, [q]))
+            for (q, val) in self.branch(t, p):
+                out.extend(self.block(st.body if val else st.orelse, [q]))
             return out
         if isinstance(st, ast.Return):
             p.end = 'return'
